@@ -200,39 +200,73 @@ def rule_r5(ctx):
     # boolean flag; afterwards `if <flags>: raise`.  Any other shape is not decided here (exit 2), a recognised
     # shape with a missing piece is a violation.
     chain = None
-    for lp in [x for x in ast.walk(cs.node) if isinstance(x, ast.For)]:
-        if len(lp.body) == 1 and isinstance(lp.body[0], ast.If):
-            arms = []
-            node = lp.body[0]
-            okshape = True
-            while True:
-                sets = [x for x in node.body if isinstance(x, ast.Assign) and len(x.targets) == 1 and isinstance(x.targets[0], ast.Name)
-                        and isinstance(x.value, ast.Constant) and x.value.value is True]
-                if len(sets) != 1 or len(node.body) != 1:
-                    okshape = False
-                    break
-                arms.append((node.test, sets[0].targets[0].id))
-                if len(node.orelse) == 1 and isinstance(node.orelse[0], ast.If):
-                    node = node.orelse[0]
-                    continue
+    loopvar = None
+
+    def arm_token(stmts):
+        """the kind an arm records: `flag = True` -> flag, `kinds.add('inet')` -> 'inet', `return 'inet'` -> 'inet'"""
+        if len(stmts) != 1:
+            return None
+        x = stmts[0]
+        if isinstance(x, ast.Assign) and len(x.targets) == 1 and isinstance(x.targets[0], ast.Name) and isinstance(x.value, ast.Constant) and x.value.value is True:
+            return x.targets[0].id
+        if isinstance(x, ast.Expr) and isinstance(x.value, ast.Call) and isinstance(x.value.func, ast.Attribute) and x.value.func.attr == "add" \
+                and len(x.value.args) == 1 and isinstance(x.value.args[0], ast.Constant) and isinstance(x.value.args[0].value, str):
+            return x.value.args[0].value
+        if isinstance(x, ast.Return) and isinstance(x.value, ast.Constant) and isinstance(x.value.value, str):
+            return x.value.value
+        return None
+
+    def chain_of(stmts):
+        """[(test or None, token)] of an if / elif / else chain, or of `if t: return k` statements followed by `return k`"""
+        arms = []
+        body = list(stmts)
+        while body:
+            node = body[0]
+            if isinstance(node, ast.If):
+                tk = arm_token(node.body)
+                if tk is None:
+                    return None
+                arms.append((node.test, tk))
                 if node.orelse:
-                    es = [x for x in node.orelse if isinstance(x, ast.Assign) and len(x.targets) == 1 and isinstance(x.targets[0], ast.Name)
-                          and isinstance(x.value, ast.Constant) and x.value.value is True]
-                    if len(es) != 1 or len(node.orelse) != 1:
-                        okshape = False
-                        break
-                    arms.append((None, es[0].targets[0].id))
-                break
-            if okshape and arms:
-                chain = arms
+                    if len(body) != 1:
+                        return None
+                    if len(node.orelse) == 1 and isinstance(node.orelse[0], ast.If):
+                        body = [node.orelse[0]]
+                        continue
+                    tk = arm_token(node.orelse)
+                    if tk is None:
+                        return None
+                    arms.append((None, tk))
+                    return arms
+                body = body[1:]
+                continue
+            tk = arm_token([node]) if len(body) == 1 else None
+            if tk is None:
+                return None
+            arms.append((None, tk))
+            return arms
+        return arms or None
+    for lp in [x for x in ast.walk(cs.node) if isinstance(x, ast.For)]:
+        ch = chain_of(lp.body)
+        if ch and isinstance(lp.target, ast.Name):
+            chain, loopvar = ch, lp.target.id
+    if chain is None:
+        # {classify(sock) for sock in sockets}: the chain lives in a helper of the class
+        for comp in [x for x in ast.walk(cs.node) if isinstance(x, (ast.SetComp, ast.ListComp, ast.GeneratorExp)) and len(x.generators) == 1]:
+            e = comp.elt
+            if isinstance(e, ast.Call) and isinstance(e.func, ast.Attribute) and len(e.args) == 1 and isinstance(comp.generators[0].target, ast.Name) \
+                    and dotted(e.args[0]) == comp.generators[0].target.id and cs.cls is not None:
+                h = cs.cls.lookup(e.func.attr)
+                if h is not None:
+                    body = [x for x in h.node.body if not (isinstance(x, ast.Expr) and isinstance(x.value, ast.Constant))]
+                    ch = chain_of(body)
+                    if ch:
+                        chain = ch
+                        loopvar = [a for a in h.params if a not in ("self", "cls")][0]
     if chain is None:
         raise AnalysisError("check_sockets: classification shape not recognised (expected one loop with an if/elif/else chain setting one flag per arm)")
     # the chain as a function (family, type) -> flag, evaluated on every kind of socket
     from .common import formula_eval
-    loopvar = None
-    for lp in [x for x in ast.walk(cs.node) if isinstance(x, ast.For)]:
-        if isinstance(lp.target, ast.Name):
-            loopvar = lp.target.id
     consts = {"socket.AF_INET": 1, "socket.AF_INET6": 2, "socket.AF_UNIX": 3, "socket.SOCK_STREAM": 10, "socket.SOCK_DGRAM": 11,
               "hasattr(socket, 'AF_UNIX')": True}
 
@@ -259,8 +293,14 @@ def rule_r5(ctx):
     ifs = [st for st in ast.walk(cs.node) if isinstance(st, ast.If) and any(isinstance(x, ast.Raise) for x in st.body)]
     tests = [gc.test_of(st) for st in ifs]
 
+    def tok(v):
+        # `flag`  or  `'kind' in kinds`
+        if isinstance(v, ast.Compare) and len(v.ops) == 1 and isinstance(v.ops[0], ast.In) and isinstance(v.left, ast.Constant):
+            return v.left.value
+        return norm(v)
+
     def conj_of(t):
-        return sorted(norm(v) for v in t.values) if isinstance(t, ast.BoolOp) and isinstance(t.op, ast.And) else [norm(t)]
+        return sorted(tok(v) for v in t.values) if isinstance(t, ast.BoolOp) and isinstance(t.op, ast.And) else [tok(t)]
     if inet and unix and any(conj_of(t) == sorted([inet[0], unix[0]]) for t in tests):
         ctx.r.ok(rid, "mixed Internet/UNIX lists raise", cs.loc())
     else:
@@ -297,7 +337,7 @@ def rule_r6(ctx, rid="C20.R6"):
     consts = []
     for n in g.nodes:
         if n.kind == "stmt" and isinstance(n.ast, ast.Assign) and isinstance(n.ast.targets[0], ast.Subscript) and dotted(n.ast.targets[0].value) == "kw" \
-                and isinstance(n.ast.value, ast.Constant) and isinstance(n.ast.value.value, str) and dotted(n.ast.targets[0].slice) == "param":
+                and isinstance(n.ast.value, ast.Constant) and isinstance(n.ast.value.value, str) and norm(n.ast.targets[0].slice) in ("param", "param[3:]"):
             neg = any(pol and isinstance(t, ast.Call) and isinstance(t.func, ast.Attribute) and t.func.attr == "startswith" and t.args and isinstance(t.args[0], ast.Constant) and t.args[0].value == "no_" for (t, pol) in guards_of(g, n))
             consts.append((n, n.ast.value.value, neg))
     pos = [c for c in consts if not c[2]]
@@ -335,8 +375,26 @@ def rule_r6(ctx, rid="C20.R6"):
         ctx.r.violation(rid, key_of(f, None, "name-backmap"), "CLI option names are not mapped back to keyword names", f.loc())
     # asbool: the cast used for booleans tests membership in truthy after lower/strip
     ab = p.func("adjustments.asbool")
-    t = norm(ab.node)
-    if "s.lower() in truthy" in t and ".strip()" in t:
+    from .common import resolve_locals
+    okb = False
+    for cmpn in [x for x in ast.walk(ab.node) if isinstance(x, ast.Compare) and len(x.ops) == 1 and isinstance(x.ops[0], ast.In) and dotted(x.comparators[0]) == "truthy"]:
+        e = resolve_locals(ab, cmpn.left)
+        meths = []
+        for _ in range(2):
+            while isinstance(e, ast.Call) and isinstance(e.func, ast.Attribute) and not e.args and not e.keywords:
+                meths.append(e.func.attr)
+                e = e.func.value
+            # the parameter itself re-bound once (s = str(s).strip()): continue through that definition
+            if isinstance(e, ast.Name) and e.id == ab.params[0]:
+                defs = [x for x in ast.walk(ab.node) if isinstance(x, ast.Assign) and len(x.targets) == 1 and isinstance(x.targets[0], ast.Name) and x.targets[0].id == e.id]
+                if len(defs) == 1 and not any(isinstance(y, ast.Compare) and y is cmpn for y in ast.walk(defs[0])):
+                    e = defs[0].value
+                    continue
+            break
+        base_ok = (isinstance(e, ast.Call) and dotted(e.func) == "str" and len(e.args) == 1 and dotted(e.args[0]) == ab.params[0]) or dotted(e) == ab.params[0]
+        if base_ok and "strip" in meths and ("lower" in meths or "casefold" in meths) and set(meths) <= {"strip", "lower", "casefold"}:
+            okb = True
+    if okb:
         ctx.r.ok(rid, "asbool = lower/strip membership in truthy", ab.loc())
     else:
         ctx.r.violation(rid, key_of(ab, None, "asbool"), "asbool no longer tests lower-cased, stripped membership in truthy", ab.loc())
